@@ -76,8 +76,9 @@ KEYNODE = {}  # canonical condition key -> (expression node, polarity the key st
 
 
 def _reg(key, node):
-    if key not in KEYNODE:
-        KEYNODE[key] = node
+    # always the most recent node: a key is looked up right after the fact was created in the current function, and
+    # declaration ids differ between trees / extraction runs
+    KEYNODE[key] = node
     return key
 
 
